@@ -263,6 +263,24 @@ def run(prop, tier, replay=None):
         controls["undo_rerecords_into_enclosing_context"] = r["error"]
         if not r["error"]:
             raise C.Machinery("negative control UndoLog(Hide=FALSE) not rejected")
+        # the same theorem without the bound on the history length: EVERY state of the inductive invariant
+        # (at most D open contexts of at most R undo records) is an initial state and one step preserves it
+        # (UndoLogInd.tla); with Hide = FALSE the step must fail
+        d_, r_ = (2, 3) if tier == "thorough" else (2, 2)
+        ind = {"Vars": {"a", "b"}, "Vals": {0, 1}, "MaxDepth": 9, "MaxOps": 1, "D": d_, "R": r_}
+        cfgp = C.write_cfg(os.path.join(wd, "undolog_ind.cfg"), dict(ind, Hide=True), init="IndInit",
+                           invariants=["IndInv", "ExitRestores"])
+        r = C.run_tlc("UndoLogInd", cfgp, wd, timeout=1800)
+        rep.add_design(r)
+        rep.coverage["undolog_inductive_step"] = {"D": d_, "R": r_, "states": r["distinct"],
+                                                  "meaning": "IndInit => IndInv by construction, IndInv /\\ Next => IndInv' "
+                                                             "checked on every state of IndInv within D, R"}
+        cfgp = C.write_cfg(os.path.join(wd, "undolog_ind_neg.cfg"), dict(ind, Hide=False, D=2, R=1), init="IndInit",
+                           invariants=["IndInv", "ExitRestores"])
+        r = C.run_tlc("UndoLogInd", cfgp, wd, timeout=900, expect_violation=True)
+        controls["undo_rerecords_breaks_inductive_step"] = r["error"]
+        if not r["error"]:
+            raise C.Machinery("negative control UndoLogInd(Hide=FALSE) not rejected")
     if prop in ("C07",):
         r = tlc_walks(wd, rep, "ko", 200, 10, sd, emit=False, bug="ko_any_gene", expect_violation=True)
         controls["ko_any_gene"] = r["error"]
